@@ -13,7 +13,8 @@ VARIABLES case, done
 vars == <<case, done>>
 
 P0 == [tag |-> -1, optional |-> FALSE, explicit |-> FALSE, set |-> FALSE, st |-> 0, open |-> FALSE]
-PT(t, opt, ex) == [tag |-> t, optional |-> opt, explicit |-> ex = "explicit", set |-> ex = "set", st |-> 0, open |-> FALSE]
+PT(t, opt, ex) == [tag |-> t, optional |-> opt, explicit |-> ex = "explicit", set |-> ex = "set",
+                   st |-> (CASE ex = "utf8" -> 12 [] ex = "ia5" -> 22 [] ex = "graphic" -> 25 [] OTHER -> 0), open |-> FALSE]
 \* canonical model values for the kinds the model can build itself
 Leaf(kind, x) ==
   CASE kind \in {"int", "int32", "goint"} -> [k |-> "int", absent |-> FALSE, v |-> x]
@@ -31,6 +32,12 @@ Members1 == {<<[kind |-> k, tag |-> t, opt |-> o[1], present |-> o[2], extra |->
 Members2 == {<<[kind |-> a, tag |-> tp[1], opt |-> oa, present |-> TRUE, extra |-> ""],
                [kind |-> b, tag |-> tp[2], opt |-> ob[1], present |-> ob[2], extra |-> ""]>> :
                a \in Kinds2, b \in Kinds2, tp \in TagPairs, oa \in {FALSE}, ob \in {<<FALSE, TRUE>>, <<TRUE, TRUE>>, <<TRUE, FALSE>>}}
+
+\* character strings of the plain Go type whose ASN.1 kind is DECLARED in the tag language (utf8 / ia5 / graphic), alone and as
+\* the elements of a list (the declaration on the list applies to its elements)
+MembersStr == {<<[kind |-> k, tag |-> t, opt |-> o[1], present |-> o[2], extra |-> e]>> :
+                 k \in {"strplain", "slicestr"}, t \in {0, 31}, o \in {<<FALSE, TRUE>>, <<TRUE, TRUE>>, <<TRUE, FALSE>>},
+                 e \in {"", "utf8", "ia5", "graphic"}}
 
 \* a context-tagged OPTIONAL member [N] followed by an UNTAGGED member whose universal tag number is N as well
 \* (BOOLEAN 1, INTEGER 2, BIT STRING 3, OCTET STRING 4, NULL 5, ENUMERATED 10, UTF8String 12, SEQUENCE 16): class matters
@@ -60,6 +67,8 @@ Cases ==
           tp \in {"struct", "choice"}, m \in Members1 \cup Members2, lf \in Leafs, sd \in {CHOOSE z \in Seeds : TRUE}}
   \cup {[mode |-> "shape", top |-> "struct", members |-> m, leaf |-> lf, seed |-> sd] :
           m \in MembersMixed, lf \in Leafs, sd \in {CHOOSE z \in Seeds : TRUE}}
+  \cup {[mode |-> "shape", top |-> tp, members |-> m, leaf |-> lf, seed |-> sd] :
+          tp \in {"struct", "choice"}, m \in MembersStr, lf \in Leafs, sd \in {CHOOSE z \in Seeds : TRUE}}
 
 Init == case = <<>> /\ done = FALSE
 Pick == ~done /\ (\E c \in Cases : case' = c) /\ done' = TRUE
